@@ -33,7 +33,7 @@ impl ProgProperty for C08 {
         }
     }
     fn mix(&self, _tier: Tier) -> Mix {
-        Mix { raw: 30, strukt: 60, div: 10, wide: 0, big: 0, roam: 0, deep: 0, commented: 3 }
+        Mix { raw: 30, strukt: 60, div: 10, wide: 0, big: 0, roam: 0, deep: 0, commented: 3, hibits: 0 }
     }
     fn max_steps(&self) -> u64 {
         300_000
